@@ -39,7 +39,7 @@ COMPONENTS = {
              'mapproxy.seed.config.before_timestamp_from_options', 'mapproxy.util.times.timestamp_before/timestamp_from_isodate',
              'mapproxy.seed.seeder.seed_task/TileWalker/TileWorkerPool/TileSeedWorker (thread flavour)',
              'mapproxy.cache.file.FileCache', 'mapproxy.cache.mbtiles.MBTilesLevelCache (+sqlite3)', 'TileLocker/FileLock'],
-    'stub': ['clock (time.time, time.sleep, datetime.now in util/times.py)', 'upstream source (SimSource)',
+    'stub': ['clock (time.time, time.sleep, datetime.now in util/times.py)', 'upstream source (SimSource)', 'fork() of the seed workers (thread workers that take a copy of the tile manager when started)',
              'file system for the file cache and the mtime file (SimFS)', 'queue + scheduler for the seed worker threads'],
     'outside_the_seams': ['sqlite file I/O on tmpfs'],
 }
